@@ -75,6 +75,8 @@ mod test_runner;
 mod type_defs;
 mod values;
 mod version;
+#[cfg(wilfred_garden_verif)]
+mod verif;
 mod wrap_in_dbg;
 
 use std::path::{Path, PathBuf};
@@ -299,6 +301,11 @@ enum CliCommands {
 }
 
 fn main() {
+    #[cfg(wilfred_garden_verif)]
+    if verif::dispatch() {
+        return;
+    }
+
     let interrupted = Arc::new(AtomicBool::new(false));
 
     let i = Arc::clone(&interrupted);
